@@ -131,10 +131,25 @@ Definition mgr_pop (m : mgr) : step_res mgr :=
 Definition mgr_get_patch (m : mgr) (i : ident) : option patch := m_redo m !! snd i.
 Definition mgr_evict (m : mgr) : mgr := Mgr (m_front m) (m_redo m) (m_undo m) ∅.
 
+(* subDB: the part of a map under a key prefix, with the prefix removed from the keys *)
+Fixpoint has_prefix (p k : list Z) : bool :=
+  match p, k with
+  | [], _ => true
+  | x :: p', y :: k' => (x =? y) && has_prefix p' k'
+  | _ :: _, [] => false
+  end.
+Definition strip (pre k : list Z) : option (list Z) :=
+  if has_prefix pre k then Some (drop (length pre) k) else None.
+Definition sub_map {A} (pre : list Z) (m : gmap (list Z) A) : gmap (list Z) A :=
+  list_to_map (omap (fun kv => (fun k' => (k', snd kv)) <$> strip pre (fst kv)) (map_to_list m)).
+Definition prefix_op (pre : list Z) (o : pop) : pop :=
+  match o with PPut k v => PPut (pre ++ k) v | PDel k => PDel (pre ++ k) end.
+
 (* ---- views. A view is numbered at creation; a snapshot reads through its parent (live). *)
 Inductive vnode :=
 | VRoot (local ov base : raw)
-| VSnap (local : raw) (parent : Z).
+| VSnap (local : raw) (parent : Z)
+| VSub (pre : list Z) (parent : Z).     (* DB.Subset(prefix): a window onto the parent, writes go to the parent *)
 Notation vtable := (gmap Z vnode).
 
 (* the encoded content of a view: its own writes over what lies below *)
@@ -145,18 +160,35 @@ Fixpoint vmap (fuel : nat) (vs : vtable) (id : Z) : raw :=
            | None => ∅
            | Some (VRoot local ov base) => local ∪ (ov ∪ base)
            | Some (VSnap local parent) => local ∪ vmap f vs parent
+           | Some (VSub pre parent) => sub_map pre (vmap f vs parent)
            end
   end.
 Definition vfuel (vs : vtable) : nat := S (size vs).
 
 Definition vget (vs : vtable) (id : Z) (k : key) : option value := dec (vmap (vfuel vs) vs id !! k).
-Definition vlocal (n : vnode) : raw := match n with VRoot l _ _ => l | VSnap l _ => l end.
+Definition vlocal (n : vnode) : raw := match n with VRoot l _ _ => l | VSnap l _ => l | VSub _ _ => ∅ end.
 Definition vset_local (n : vnode) (l : raw) : vnode :=
-  match n with VRoot _ ov b => VRoot l ov b | VSnap _ p => VSnap l p end.
-Definition vwrite (vs : vtable) (id : Z) (o : pop) : vtable :=
-  match vs !! id with
-  | Some n => <[id := vset_local n (raw_apply1 (vlocal n) o)]> vs
-  | None => vs
+  match n with VRoot _ ov b => VRoot l ov b | VSnap _ p => VSnap l p | VSub pre p => VSub pre p end.
+(* a write through a subset lands, with the prefix added, in the view the subset was taken from *)
+Fixpoint vwrite_f (fuel : nat) (vs : vtable) (id : Z) (o : pop) : vtable :=
+  match fuel with
+  | O => vs
+  | S f => match vs !! id with
+           | Some (VSub pre p) => vwrite_f f vs p (prefix_op pre o)
+           | Some n => <[id := vset_local n (raw_apply1 (vlocal n) o)]> vs
+           | None => vs
+           end
+  end.
+Definition vwrite (vs : vtable) (id : Z) (o : pop) : vtable := vwrite_f (vfuel vs) vs id o.
+(* the view's own writes, as Changes() reports them (changesInternal through subDB strips the prefix) *)
+Fixpoint vwrites (fuel : nat) (vs : vtable) (id : Z) : raw :=
+  match fuel with
+  | O => ∅
+  | S f => match vs !! id with
+           | Some (VSub pre p) => sub_map pre (vwrites f vs p)
+           | Some n => vlocal n
+           | None => ∅
+           end
   end.
 
 (* lexicographic order of byte strings (goleveldb's default comparer) *)
@@ -169,13 +201,6 @@ Fixpoint lex_leb (a b : list Z) : bool :=
 Definition kv_le (a b : key * value) : Prop := lex_leb (fst a) (fst b) = true.
 Global Instance kv_le_dec a b : Decision (kv_le a b).
 Proof. unfold kv_le. apply _. Defined.
-
-Fixpoint has_prefix (p k : list Z) : bool :=
-  match p, k with
-  | [], _ => true
-  | x :: p', y :: k' => (x =? y) && has_prefix p' k'
-  | _ :: _, [] => false
-  end.
 
 (* decoded content: what Get/Has/iteration (skipping nil values) expose of an encoded map *)
 Definition dec_enc (e : enc) : option value := match e with _ :: v => Some v | [] => None end.
@@ -208,6 +233,8 @@ Inductive op :=
 | OVDel (v : Z) (k : key)
 | OVSnap (v nv : Z)
 | OVChanges (v : Z)
+| OVSub (v nv : Z) (pre : list Z)
+| OVApply (v : Z) (p : list pop)
 | OEvict
 | OGetPatch (i : ident).
 
@@ -246,7 +273,9 @@ Definition step (s : state) (o : op) : state * ans :=
   | OVPut v k x => (St m (vwrite vs v (PPut k x)), AUnit)
   | OVDel v k => (St m (vwrite vs v (PDel k)), AUnit)
   | OVSnap v nv => (St m (<[nv := VSnap ∅ v]> vs), AUnit)
-  | OVChanges v => (s, APatch (match vs !! v with Some n => changes_of (vlocal n) | None => [] end))
+  | OVChanges v => (s, APatch (changes_of (vwrites (vfuel vs) vs v)))
+  | OVSub v nv pre => (St m (<[nv := VSub pre v]> vs), AUnit)
+  | OVApply v p => (St m (foldl (fun vs o => vwrite vs v o) vs p), AUnit)
   | OEvict => (St (mgr_evict m) vs, AUnit)
   | OGetPatch i => (s, AOptPatch (mgr_get_patch m i))
   end.
